@@ -48,8 +48,19 @@ func NewServer() *Server {
 	return srv
 }
 
+// reinitCLI runs on the configuration refresh goroutine while requests are being
+// served: the client pointer is read and written under settingsMu.
 func (s *Server) reinitCLI(cfg cliSettings) {
-	s.cliClient = cli.NewClient(cfg.Path, cfg.Timeout)
+	client := cli.NewClient(cfg.Path, cfg.Timeout)
+	s.settingsMu.Lock()
+	s.cliClient = client
+	s.settingsMu.Unlock()
+}
+
+func (s *Server) getCLIClient() *cli.Client {
+	s.settingsMu.RLock()
+	defer s.settingsMu.RUnlock()
+	return s.cliClient
 }
 
 func (s *Server) SetClient(client protocol.Client) {
